@@ -3,25 +3,29 @@ package notation
 import (
 	cdc "github.com/craterdog/go-collection-framework/v4/cdcn"
 	col "github.com/craterdog/go-collection-framework/v4/collection"
+	"verifharness/cdcngen"
+	"verifharness/core"
 	"verifharness/lib"
+	"verifharness/model"
 )
 
 // Instances with a past.  A parser or a notation may be used for one text after another; what an earlier
 // text left behind -- in particular one that was rejected half-way, with tokens read ahead and put back --
 // must not show in the next.  pastDocs are fed to an instance before it is used for the text under test.
 var pastDocs = []string{
-	"[1, 2](List)\n",              // accepted
-	"[1 2](Array)",                // rejected by the parser after a put-back (missing comma)
-	"[1, 2, 3(List)",              // rejected by the parser (missing bracket)
-	"[1](Array) [2](Array)",       // trailing tokens
+	"[1, 2](List)\n",               // accepted
+	"[1 2](Array)",                 // rejected by the parser after a put-back (missing comma)
+	"[1, 2, 3(List)",               // rejected by the parser (missing bracket)
+	"[1](Array) [2](Array)",        // trailing tokens
 	"[\n    1\n    2 3\n](List)\n", // rejected on line 3
-	"[bad](Array)",                // rejected by the scanner
-	"[\"key\": ](Catalog)",        // rejected with a half-built association
+	"[bad](Array)",                 // rejected by the scanner
+	"[\"key\": ](Catalog)",         // rejected with a half-built association
 }
 
 // parserWithPast returns the ParseSource of one parser instance that has seen the past documents selected by
 // the bits of mask.
 func parserWithPast(mask int) func(string) any {
+	scannerUser()
 	parser := cdc.Parser().Make()
 	for i, doc := range pastDocs {
 		if mask&(1<<i) != 0 {
@@ -41,4 +45,88 @@ func notationWithPast(mask int) col.NotationLike {
 	}
 	lib.Call(func() { notation.FormatValue(make(chan int)) }) // a value it cannot format
 	return notation
+}
+
+// scannerUser is a caller that uses the scanner class on its own (a small tool that picks numbers apart): it asks
+// for the matches of every token type in texts that do and do not match and keeps working on the lists it gets --
+// they are its own.  Called before the parsers under test are used.
+func scannerUser() {
+	var all col.ListLike[string]
+	for _, text := range []string{"zzz", "12", "1.5", "", "[", "\"s\"", "true!"} {
+		for tt := cdc.ErrorToken; tt <= cdc.TypeToken; tt++ {
+			lib.Call(func() { // some token types cannot be matched at all
+				matches := cdc.Scanner().MatchToken(tt, text)
+				if matches == nil {
+					return
+				}
+				if all == nil {
+					all = matches
+				} else {
+					all.AppendValues(matches)
+				}
+				matches.AppendValue("7")
+				matches.SetValue(1, "77")
+			})
+		}
+	}
+}
+
+// ---------------------------------------------------------------- one parser that lives long
+
+// One parser (and one notation) instance is handed thousands of documents, most of them malformed in ways that
+// are noticed with several sequences still open.  Every few hundred documents a valid one is parsed: it must
+// still mean what it says, and a malformed one must still get its located diagnostic.
+type longParserCase struct {
+	Docs     int  `json:"docs"`
+	Notation bool `json:"through_notation"`
+}
+
+var rejectedForms = []string{
+	"[1, [2, [3, [9223372036854775808](List)](List)](List)](List)\n",
+	"[[[[1 2](Array)](List)](List)](List)\n",
+	"[\"a\": [\"b\": [\"c\": [$](List)](Catalog)](Catalog)](Catalog)\n",
+	"[1, 2](Nope)\n",
+	"[[1, 2](List), [3, 4(List)](List)\n",
+	"[\n    [\n        [\n            'ab'\n        ](List)\n    ](List)\n](List)\n",
+}
+
+func execLongParser(prop string) func(longParserCase, core.Source) core.Result {
+	return func(c longParserCase, _ core.Source) (res core.Result) {
+		scannerUser()
+		parse := cdc.Parser().Make().ParseSource
+		if c.Notation {
+			parse = cdc.Notation().Make().ParseSource
+		}
+		valid := "[\"k\": [1, [2, [3](List)](List)](List), \"e\": [ ](List)](Catalog)\n"
+		want := model.VAssoc("Catalog",
+			model.Pair{Key: model.VStr("k"), Value: model.VColl("List", model.VInt(1), model.VColl("List", model.VInt(2), model.VColl("List", model.VInt(3))))},
+			model.Pair{Key: model.VStr("e"), Value: model.VColl("List")})
+		for i := 0; i < c.Docs && res.Violation == nil; i++ {
+			doc := rejectedForms[i%len(rejectedForms)]
+			if p, _ := lib.Call(func() { parse(doc) }); !p {
+				res.Violation = core.Violate(prop+"/long-lived-parser/accepted", "document %d handed to one parser is malformed but was accepted:\n%s", i+1, doc)
+				return
+			}
+			if i%250 == 249 || i == c.Docs-1 {
+				var obj any
+				if p, payload := lib.Call(func() { obj = parse(valid) }); p {
+					res.Violation = core.Violate(prop+"/long-lived-parser/rejected", "after %d malformed documents one parser rejects a sentence of the grammar: %s\n%s", i+1, lib.Short(payload), valid)
+					return
+				}
+				if d := cdcngen.Matches(want, obj, "$"); d != "" {
+					res.Violation = core.Violate(prop+"/long-lived-parser/wrong-meaning", "after %d malformed documents: %s", i+1, d)
+					return
+				}
+				if prop == "C12" {
+					o := parseCheckedWith(doc, parse)
+					if o.Kind == "violation" {
+						res.Violation = o.Violation
+						return
+					}
+				}
+			}
+		}
+		res.NonTrivial = true
+		return
+	}
 }
